@@ -28,6 +28,23 @@ func getRequiredFloat(ctx *http.Request, name string, def string, err error) (fl
 	return iRes, err
 }
 
+// getRequiredNs reads a nanosecond timestamp exactly: a float64 cannot hold a 19-digit integer (it rounds to
+// multiples of 256 ns), so integers are parsed as integers and only other spellings go through ParseFloat.
+func getRequiredNs(ctx *http.Request, name string, err error) (int64, error) {
+	if err != nil {
+		return 0, err
+	}
+	strRes := ctx.URL.Query().Get(name)
+	if strRes == "" {
+		return 0, fmt.Errorf("%s parameter is required", name)
+	}
+	if iRes, err := strconv.ParseInt(strRes, 10, 64); err == nil {
+		return iRes, nil
+	}
+	fRes, err := strconv.ParseFloat(strRes, 64)
+	return int64(fRes), err
+}
+
 func getRequiredDuration(ctx *http.Request, name string, def string, err error) (float64, error) {
 	if err != nil {
 		return 0, err
